@@ -72,6 +72,18 @@ def main(argv):
     mods = {f[:-3].replace("/", ".") for f in files}
     selected = {t for t in stable if any(t.startswith(m + "::") or t.startswith(m + ".") for m in mods)}
   missing = sorted(selected - passed)
+  if missing and len(missing) <= 40:
+    # a few tests are flaky under parallel load (they share generated files in the cwd): retry their files serially
+    mods = sorted({t.split("::")[0] for t in missing})
+    refiles = sorted({f for f in files for m in mods if m.startswith(f[:-3].replace("/", "."))})
+    xml = os.path.join(out, "retry.xml")
+    subprocess.run(["/venv/bin/python", "-B", "-m", "pytest", "-q", "-p", "no:cacheprovider", "--timeout=900",
+                    "--continue-on-collection-errors", f"--junitxml={xml}"] + refiles, cwd=tree, env=env,
+                   stdout=subprocess.DEVNULL, stderr=subprocess.STDOUT)
+    p2, f2 = parse([xml])
+    print(f"baseline: retried {len(refiles)} files serially for {len(missing)} tests: {len(set(missing) & p2)} now pass")
+    passed |= p2
+    missing = sorted(selected - passed)
   newpass = sorted(passed - stable)
   print(f"baseline: tree={tree} files={len(files)} passed={len(passed)} failed={len(failed)} "
         f"stable_selected={len(selected)} stable_not_passing={len(missing)} newly_passing={len(newpass)}")
